@@ -65,8 +65,9 @@ inductive Out
   | pendIns (s : Sid) | pendRm (s : Sid) | pendRetain
   -- `debug_assert!(false)`
   | bug
-  -- ghost markers (no effect in the code): an inbound substream was accepted by the user / automatically
-  | accepted (pipe : Pipe) | autoAccepted (pipe : Pipe)
+  -- ghost markers (no effect in the code): an inbound substream was accepted by the user / automatically /
+  -- rejected by the user
+  | accepted (pipe : Pipe) | autoAccepted (pipe : Pipe) | rejected (pipe : Pipe)
   deriving DecidableEq, Repr
 
 def OutSt.pendingOpen : OutSt → Option Sid
@@ -190,7 +191,7 @@ def onValidationResult (slot : Slot) (accept : Bool) (openRes : Option Sid) : Re
   | none => (none, [])
   | some (.validating out (.validating pipe) dir) =>
     if !accept then
-      (some (.closed out.pendingOpen), [.closePipe pipe, .rmOut, .rmIn])
+      (some (.closed out.pendingOpen), [.rejected pipe, .closePipe pipe, .rmOut, .rmIn])
     else
       match out with
       | .closed =>
